@@ -11,7 +11,8 @@ from . import impl
 WS_CHARS = [" ", "\t", " ", " ", "　", "\x0b", "\x0c", "\x1c", "\x85", " "]
 TEXT_POOL = ["a", "some text", "x <a> y", "<b>", "é😀", "tab\there", "| pipe", "@at", "# hash", "\\n", "\\|",
              "trailing ", " leading", "Given ", "Feature:", '"""', "```", "*", "<a> <a>", "\ud800", "\x00", "a\rb",
-             "$1 \\1", "(", "a.b", "", "::", "Scenario: x", "Examples:", "|a|b|"]
+             "$1 \\1", "(", "a.b", "", "::", "Scenario: x", "Examples:", "|a|b|",
+             '\\"\\"\\"', "\\`\\`\\`", "x \\`\\`\\` y \\`\\`\\`", 'q \\"\\"\\" r \\"\\"\\"', "\\`\\`\\`python"]
 
 
 def dialect_names():
@@ -68,8 +69,8 @@ class DocGen:
                 ts.append("@" + r.choice(["t1", "t2", "dup", "é", "a@b", "x:y", "#x"]))
             sep = lambda: " " * r.randrange(1, 3)  # noqa: E731
             line = self.ind() + ts[0] + "".join(sep() + t for t in ts[1:])
-            if r.random() < 0.2:
-                line += " #comment @c"
+            if r.random() < 0.25:
+                line += r.choice([" #comment @c", "\t# note", "\u00a0# nbsp", " \t #x", "\u3000#y", "  #"])
             self.emit(line + ws(r, 2, self.exotic))
             self.filler(0.15)
 
@@ -79,7 +80,7 @@ class DocGen:
             for _ in range(r.randrange(1, 4)):
                 c = r.random()
                 if c < 0.6:
-                    self.emit(self.ind() + r.choice(["free text", "more", "Given not a step?", "é text", "\\\"\\\"\\\""]))
+                    self.emit(self.ind() + r.choice(["free text", "more", "Given not a step?", "é text", "\\\"\\\"\\\"", "use \\`\\`\\` here", "\\`\\`\\`py and \\\"\\\"\\\""]))
                 elif c < 0.75:
                     self.emit(self.ind() + "# comment in description")
                 elif c < 0.9:
